@@ -282,8 +282,11 @@ class Engine:
         (trigger: the application); solve() adds the axioms of the symbols an obligation mentions."""
         if name in self.spec_defined or name in self.spec_defining:
             return
-        self.spec_defining.add(name)
         sp = self.cs.specs[name]
+        if sp.abstract:
+            self.spec_defined.add(name)
+            return
+        self.spec_defining.add(name)
         params = [z3.Const(f"{name}__{a.arg}", self._sort_of(s)) for a, s in zip(sp.node.args.args, sp.arg_sorts)]
         saved = self.run
         self.run = Run(self, [], merge_only=True)
